@@ -224,7 +224,18 @@ def cli_args(case: dict, wd: str) -> T.List[str]:
         a += ['--slice', '%d/%d' % tuple(case['slice'])]
     if case.get('tmult') is not None:
         a += ['--timeout-multiplier=' + repr(float(case['tmult']))]
+    a += list(case.get('args', []))          # positional test names (never start with '-')
     return a
+
+
+def sel_err(e: BaseException) -> str:
+    """canonical name of a refusal of `get_tests`"""
+    msg = str(e)
+    if 'does not match any test' in msg:
+        return 'ERR:noMatch'
+    if 'exceeds number of tests' in msg:
+        return 'ERR:tooManySlices'
+    return 'ERR:' + type(e).__name__
 
 
 def run_case(case: dict, wd: str, want_logs: bool = True) -> dict:
@@ -277,8 +288,8 @@ def run_case(case: dict, wd: str, want_logs: bool = True) -> dict:
                 try:
                     selected = th.get_tests()
                     res['selected'] = [_CURRENT['names'][t.name] for t in selected]
-                except Exception as e:  # MesonException for too many slices
-                    res['selected'] = 'ERR:' + type(e).__name__
+                except Exception as e:  # MesonException for too many slices / an argument matching no test
+                    res['selected'] = sel_err(e)
                 th2_exit = None
                 try:
                     th2_exit = th.doit()
